@@ -272,6 +272,19 @@ def shuffled_clients(case):
       # datasets travel with their ids
       for cid, ds in itertools.islice(fd.shuffled_clients(buffer_size=buf, seed=seed), n):
         require(len(ds) == sizes[ids.index(cid)], '%s: dataset does not belong to its id' % name, case=nc)
+      # the seeded stream must not be disturbed by other streams taken from the same dataset object meanwhile
+      import fedjax
+      it3 = fd.shuffled_clients(buffer_size=buf, seed=seed)
+      inter = [next(it3)[0] for _ in range(min(2, 3 * n))]
+      full_eval = [int(v) for b in fedjax.padded_batch_federated_data(fd, batch_size=2) for v in np.asarray(b['i'])[
+          np.asarray(b['__mask__'])]]
+      require(sorted(full_eval) == list(range(1, 1 + sum(sizes))), '%s: padded_batch_federated_data run while a shuffled '
+              'stream is suspended is incomplete' % name, case=nc)
+      half = fedjax.padded_batch_federated_data(fd, batch_size=1)
+      next(half, None)  # an abandoned evaluation pass
+      inter += [c for c, _ in itertools.islice(it3, 3 * n - len(inter))]
+      require(inter == got, '%s: a seeded shuffled_clients stream interleaved with evaluation passes over the same dataset '
+              'object differs from the undisturbed stream' % name, got, inter, case=nc)
       out[name] = got
     fds['sql']._connection.close()
   finally:
@@ -353,6 +366,25 @@ def repeatable(case):
   for x in it:
     first.append(x)
   require(list(it) == first and list(it) == first, 'replay after a completed pass differs')
+  # passes that are NOT started by a fresh iter(): bare next() until StopIteration, several times
+  base2 = (x for x in passes[0]) if kind not in ('list', 'tuple', 'dict', 'str', 'bytes', 'range', 'set') else base
+  it = fdm.RepeatableIterator(base2)
+  for pno in range(3):
+    got = []
+    while True:
+      try:
+        got.append(next(it))
+      except StopIteration:
+        break
+    require(got == passes[0], 'pass %d driven by bare next() calls differs from the first pass' % (pno + 1), passes[0], got)
+  # the documented usage: consumers created up front, consumed one after the other
+  base3 = (x for x in passes[0]) if kind not in ('list', 'tuple', 'dict', 'str', 'bytes', 'range', 'set') else base
+  it = fdm.RepeatableIterator(base3)
+  m1, m2, m3 = map(lambda x: (1, x), it), map(lambda x: (2, x), it), map(lambda x: (3, x), it)
+  l1, l2, l3 = list(m1), list(m2), list(m3)
+  require([x for _, x in l1] == passes[0] and [x for _, x in l2] == passes[0] and [x for _, x in l3] == passes[0],
+          'consumers created up front and consumed one after the other do not each see a full pass (docstring usage)',
+          passes[0], [[x for _, x in l] for l in (l1, l2, l3)])
   return {'outcome': [repr(p) for p in passes], 'nontrivial': kind not in ('list', 'tuple') and len(items) > 0}
 
 
